@@ -336,8 +336,9 @@ func convertFFIParamsToABIParameters(ctx context.Context, params fftypes.FFIPara
 		c := fftypes.NewFFISchemaCompiler()
 		v := &ParamValidator{}
 		c.RegisterExtension(v.GetExtensionName(), v.GetMetaSchema(), v)
-		// The name is used as the URL of the schema resource, so must be escaped (a '#' would be treated as a fragment)
-		schemaURL := url.PathEscape(param.Name)
+		// The name is used as the URL of the schema resource, so must be escaped (a '#' would be treated as a fragment,
+		// and a ':' - which PathEscape leaves alone - would make the text before it a URL scheme)
+		schemaURL := strings.ReplaceAll(url.PathEscape(param.Name), ":", "%3A")
 		err := c.AddResource(schemaURL, strings.NewReader(param.Schema.String()))
 		if err != nil {
 			return nil, i18n.WrapError(ctx, err, signermsgs.MsgInvalidFFIDetailsSchema, param.Name)
